@@ -230,6 +230,20 @@ class CubeRun:
                     self.fail("group_laws", "word_times_inverse_word_not_identity", f"word of {len(ops['word'])} moves followed by its inverse word does "
                               "not restore the start state")
             self.stats.check("inverse_words_checked")
+        rot = ops.get("whole_rotation")
+        if rot and cs.n % 2 == 0:
+            # turning every layer of one axis the same way (the layers counted from face f by +90 degrees, those counted
+            # from the opposite face by -90 degrees; or all by 180) rotates the whole cube: an even cube has no fixed centres,
+            # so a solved cube stays solved in another orientation - every goal test must accept it (checked move by move)
+            f, half = int(rot[0]), bool(rot[1])
+            opp = {0: 5, 5: 0, 1: 3, 3: 1, 2: 4, 4: 2}[f]
+            for d in range(cs.n // 2):
+                play([f, d, 2 if half else 1], "whole-cube rotation")
+            for d in range(cs.n // 2):
+                play([opp, d, 2 if half else 0], "whole-cube rotation")
+            if model_solved(model["real"]):
+                self.stats.probe("solved_in_rotated_orientation")
+            self.stats.check("whole_cube_rotations")
         self.stats.runs += 0
 
 
@@ -238,7 +252,11 @@ def gen_cube_ops(rng: np.random.Generator, n: int) -> Dict[str, Any]:
         return [int(rng.integers(0, 6)), int(rng.integers(0, n // 2)), int(rng.integers(0, 3))]
     word = [rnd() for _ in range(int(rng.integers(3, 30)))]
     laws = [[str(rng.choice(["half_equals_two_quarters", "four_quarters", "cw_then_acw"])), rnd()] for _ in range(int(rng.integers(0, 4)))]
-    return {"kind": "cube", "key": int(rng.integers(0, 2**31 - 1)), "word": word, "laws": laws, "undo": bool(rng.random() < 0.7)}
+    ops = {"kind": "cube", "key": int(rng.integers(0, 2**31 - 1)), "word": word, "laws": laws, "undo": bool(rng.random() < 0.7)}
+    r = rng.random()
+    if n % 2 == 0 and r < 0.5:
+        ops["whole_rotation"] = [int(rng.integers(0, 6)), bool(rng.random() < 0.3)]
+    return ops
 
 
 # ---- sliding tile puzzle -------------------------------------------------------------------------
